@@ -15,10 +15,10 @@ import sys
 
 HERE = os.path.dirname(os.path.dirname(os.path.abspath(__file__)))
 REL = {
-    'C01': ['C01', 'C10', 'C11', 'C12'], 'C02': ['C02', 'C10', 'C14'], 'C03': ['C03', 'C04', 'C06', 'C11'],
+    'C01': ['C01', 'C10', 'C11', 'C12', 'C16'], 'C02': ['C02', 'C10', 'C14'], 'C03': ['C03', 'C04', 'C06', 'C11'],
     'C04': ['C04', 'C03', 'C06'], 'C05': ['C05', 'C03', 'C06'], 'C06': ['C06', 'C04', 'C14'],
     'C07': ['C07', 'C10', 'C12', 'C14'], 'C08': ['C08', 'C10', 'C11', 'C14', 'C06'], 'C09': ['C09', 'C15'],
-    'C10': ['C10', 'C13', 'C05'], 'C11': ['C11', 'C10', 'C13', 'C03'], 'C12': ['C12', 'C01', 'C07', 'C10', 'C09'],
+    'C10': ['C10', 'C13', 'C05'], 'C11': ['C11', 'C10', 'C13', 'C03', 'C08'], 'C12': ['C12', 'C01', 'C07', 'C10', 'C09'],
     'C13': ['C13', 'C10', 'C11'], 'C14': ['C14', 'C02', 'C06', 'C03'], 'C15': ['C15', 'C09'], 'C16': ['C16', 'C01'],
     'C17': ['C17', 'C07', 'C03'],
 }
